@@ -314,7 +314,22 @@ func (c *c02Gen) block(cx c02Ctx, minStmts int) string {
 				fc := cx
 				fc.depth++
 				fc.inFinally = true
-				sb.WriteString("finally:\n" + Indent(fmt.Sprintf("_log.append('f%d')\n", c.nid())+c.block(fc, 0), 4))
+				fbody := fmt.Sprintf("_log.append('f%d')\n", c.nid())
+				if g.Chance(1, 5) {
+					// a loop of its own inside the finally body, whose continue/break go through a try/finally or with of their own,
+					// while whatever brought control into this finally body (return, continue, break, an exception) is still pending
+					c.kinds["loop-with-guarded-continue-in-finally"] = true
+					v := fmt.Sprintf("j%d", c.nid())
+					inner := fmt.Sprintf("try:\n    if %s == 0: continue\n    _log.append(%d)\n    if %s == 1: break\nfinally:\n    _log.append('f%d')\n", v, c.nid(), v, c.nid())
+					if g.Bool() {
+						inner = fmt.Sprintf("with CM('w%d', %s):\n    if %s == 0: continue\n    _log.append(%d)\n    if %s == 1: break\n", c.nid(), g.Str("False", "True"), v, c.nid(), v)
+					}
+					fbody += g.Str("for "+v+" in range(3):\n", v+" = -1\nwhile "+v+" < 2:\n    "+v+" += 1\n") + Indent(fmt.Sprintf("_log.append('%s')\n", v)+inner+c.exitAction(c02Ctx{depth: cx.depth + 2, inLoop: true, guarded: true}), 4)
+					if g.Bool() {
+						fbody += "else:\n" + Indent(fmt.Sprintf("_log.append(%d)\n", c.nid()), 4)
+					}
+				}
+				sb.WriteString("finally:\n" + Indent(fbody+c.block(fc, 0), 4))
 			}
 		case 6: // with
 			c.kinds["with"] = true
